@@ -10,8 +10,10 @@ EXPLANATION = (
     'that create_certificate refuses to seal twice only through the AlreadyCertified flag - so the order matters); (b) artifact: '
     'compute < store signed entity, the stored certificate_id and entity type derive from the certificate / type passed in, '
     'create_artifact is reached only with the certificate returned by create_certificate; (c) artifact failure maps to ReInit, "not '
-    'enough signatures" to KeepState; (d) the entity lock taken before spawning is released on every exit of the spawned task. Does '
-    'not decide what a restart finds after each cut, nor progress.')
+    'enough signatures" to KeepState; (d) the entity lock taken before spawning is released on every exit of the spawned task; (e) '
+    'the open-message clean-up that runs in the epoch initialisation tasks - hence at every restart - deletes strictly below the '
+    'epoch being entered (operator of the embedded SQL condition; shared with C14-f): the open messages of in-flight rounds and, '
+    'by cascade, their registered signatures survive a restart. Does not decide what a restart finds after each cut, nor progress.')
 
 ASSUMPTIONS = ['SQLite single-statement atomicity; what a restart observes after each cut is a history property (not decided)']
 
@@ -172,3 +174,15 @@ def run(ctx):
             R.violation('d', 'R2', inst, 'create_artifact:lock-pairing', '; '.join(problems), ca.loc())
         else:
             R.ok('d', 'R2', inst, '', ca.loc())
+
+
+# ---- (e) added after seed C15-2: what a restart finds
+_run_c15 = run
+
+
+def run(ctx):  # noqa: F811
+    _run_c15(ctx)
+    from props.shared import open_message_prune_rule
+    ctx.report.clause('e', 'the clean-up that runs at every restart keeps the current epoch\'s open messages and their signatures')
+    open_message_prune_rule(ctx, 'e', 'together (by cascade) with every single signature already registered for the in-flight rounds: after a restart '
+                                      'the interrupted round cannot be completed from the persisted state')
